@@ -95,7 +95,7 @@ def render(tab) -> str:
         *[f"  | {v}" for v in VIS],
         "  deriving DecidableEq, Repr",
         "",
-        "inductive VisitHow where | explicit | raisesInternal | raisesUser deriving DecidableEq, Repr",
+        "inductive VisitHow where | explicit | identity | raisesInternal | raisesUser deriving DecidableEq, Repr",
         "inductive ReadHow where | read | guard deriving DecidableEq, Repr",
         "inductive GenericHow where | rejects | forwards | fallback | other deriving DecidableEq, Repr",
         "",
